@@ -28,6 +28,7 @@ import (
 	"regexp"
 	"sort"
 	"strings"
+	"unicode/utf8"
 
 	"verif/ref/chello"
 )
@@ -198,14 +199,34 @@ func in(s string, set []string) bool {
 	return false
 }
 
+// split cuts got into a (at least the 8 fixed bytes), b, c from the right: b
+// and c are exactly 12 bytes each, preceded by "_".
+func split(got string) (a, b, c string, ok bool) {
+	n := len(got)
+	if n < 8+1+1+12+1+12 || got[n-13] != '_' || got[n-26] != '_' {
+		return "", "", "", false
+	}
+	return got[:n-26], got[n-25 : n-13], got[n-12:], true
+}
+
+// twoChars: the ALPN part is two bytes or two characters (a non-ASCII byte
+// converted to a character occupies two bytes in UTF-8).
+func twoChars(s string) bool { return len(s) == 2 || utf8.RuneCountInString(s) == 2 }
+
 // Match reports whether got is admissible; if not, field names the first
 // component that is wrong: form, protocol, version, sni, nciphers, nexts, alpn, b, c.
 func (r Ref) Match(got string) (ok bool, field string) {
-	// split from the right: b and c are fixed-size; a has a fixed 10-byte layout
-	if len(got) != 10+1+12+1+12 || got[10] != '_' || got[23] != '_' {
+	a, b, c, ok := split(got)
+	if !ok {
 		return false, "form"
 	}
-	a, b, c := got[:10], got[11:23], got[24:]
+	if r.ALPNAny {
+		if !twoChars(a[8:]) {
+			return false, "form"
+		}
+	} else if len(a) != 10 {
+		return false, "form"
+	}
 	switch {
 	case a[0] != 't':
 		return false, "protocol"
@@ -217,7 +238,7 @@ func (r Ref) Match(got string) (ok bool, field string) {
 		return false, "nciphers"
 	case a[6:8] != r.NExts:
 		return false, "nexts"
-	case !r.ALPNAny && a[8:10] != r.ALPN:
+	case !r.ALPNAny && a[8:] != r.ALPN:
 		return false, "alpn"
 	case !in(b, r.B):
 		return false, "b"
@@ -227,13 +248,15 @@ func (r Ref) Match(got string) (ok bool, field string) {
 	return true, ""
 }
 
-var formRE = regexp.MustCompile(`(?s)^t(00|10|11|12|13)[di][0-9]{4}..(_[0-9a-f]{12}){2}$`)
+var (
+	aRE   = regexp.MustCompile(`^t(00|10|11|12|13)[di][0-9]{4}$`)
+	hexRE = regexp.MustCompile(`^[0-9a-f]{12}$`)
+)
 
 // WellFormed is the form clause of the statement: a_b_c with twelve hex
-// digits in b and in c (and the fixed layout of a).
+// digits in b and in c, and a = t, version code, d|i, two 2-digit counts, two
+// ALPN characters.
 func WellFormed(got string) bool {
-	if len(got) != 35 {
-		return false
-	}
-	return formRE.MatchString(got[:8]+"xx"+got[10:]) // the two ALPN bytes may be any bytes
+	a, b, c, ok := split(got)
+	return ok && aRE.MatchString(a[:8]) && twoChars(a[8:]) && hexRE.MatchString(b) && hexRE.MatchString(c)
 }
